@@ -4,6 +4,7 @@ package main
 
 import (
 	"fmt"
+	"go/token"
 	"strings"
 
 	"golang.org/x/tools/go/ssa"
@@ -104,6 +105,22 @@ func runC16(w *World, r *Report) {
 		{"Propose", ").SaveAwaitedTransaction", argPaths("trx"), []g{
 			{"issuer signature verified", func(fn *ssa.Function) []Edge { return callEdges(fn, ").VerifyIssuer", "errnil", recvPath("trx")) }},
 			{"transaction carries data (contract)", func(fn *ssa.Function) []Edge { return callEdges(fn, ").IsContract", "true", recvPath("trx")) }},
+			{"data size within the configured limit", func(fn *ssa.Function) []Edge {
+				var es []Edge
+				for _, b := range fn.Blocks {
+					if len(b.Instrs) == 0 {
+						continue
+					}
+					if iff, ok := b.Instrs[len(b.Instrs)-1].(*ssa.If); ok {
+						if bo, ok := iff.Cond.(*ssa.BinOp); ok && bo.Op == token.GTR {
+							if p, _, isLen := lenExpr(bo.X); isLen && p == "trx.Data" && strings.HasSuffix(pathOf(bo.Y), ".dataSize") {
+								es = append(es, Edge{b, 1})
+							}
+						}
+					}
+				}
+				return es
+			}},
 		}},
 		{"Confirm", ").CreateLeaf", argPaths("_", "trx"), []g{
 			{"request converted by ProtoTrxToTrx(in)", func(fn *ssa.Function) []Edge { return callEdges(fn, ".ProtoTrxToTrx", "errnil", argPaths("in")) }},
